@@ -139,6 +139,36 @@ def interruptedF (b : BusyRef) (t : Task) (ivs : List (Int × Int)) : List Fml :
       (match maxD with | some m => [Fml.imp (.le b.s b.e) (.le t.dVar (.add (numT m) tot))] | none => [])
   | _ => ivs.map (fun iv => Fml.or [.ge b.s (numT iv.2), .le b.e (numT iv.1)])
 
+/-- `off + p · ((x − off) div p)`: the shift of the repetition in whose period the instant `x` lies -/
+def periodShift (x : Term) (off p : Int) : Term :=
+  .add (numT off) (.mul (numT p) (.div (.sub x (numT off)) (numT p)))
+
+/-- number of repetitions of the window `(lo, hi)` inside the busy interval (closed form `repsInside`) -/
+def repsInsideT (b : BusyRef) (lo hi off p : Int) : Term :=
+  maxT (numT 0) (.add (.add (.div (.sub (.sub b.e (numT hi)) (numT off)) (numT p))
+                            (.div (.sub (.add (numT lo) (numT off)) b.s) (numT p))) (numT 1))
+
+/-- ResourcePeriodicallyInterrupted, one busy interval (the clauses of `PeriodicInterruptedOK`, each or-ed
+    with the activity-window masks) -/
+def periodicInterruptedF (b : BusyRef) (t : Task) (ivs : List (Int × Int)) (p start off : Int)
+    (end_ : Option Int) : List Fml :=
+  let masks := periodicMasks b start end_
+  match t.kind with
+  | .var minD maxD _ =>
+      let tot := sumOrZero (ivs.map (fun iv => Term.mul (numT (iv.2 - iv.1)) (repsInsideT b iv.1 iv.2 off p)))
+      ivs.flatMap (fun iv =>
+        [Fml.or ([Fml.le b.s (.add (numT iv.1) (periodShift b.s off p)),
+                  Fml.ge b.s (.add (numT iv.2) (periodShift b.s off p))] ++ masks),
+         Fml.or ([Fml.le b.e (.add (numT iv.1) (periodShift b.e off p)),
+                  Fml.ge b.e (.add (numT iv.2) (periodShift b.e off p))] ++ masks)]) ++
+      [Fml.or ([Fml.imp (.le b.s b.e) (.ge t.dVar (.add (numT minD) tot))] ++ masks)] ++
+      (match maxD with
+       | some m => [Fml.or ([Fml.imp (.le b.s b.e) (.le t.dVar (.add (numT m) tot))] ++ masks)]
+       | none => [])
+  | _ => ivs.map (fun iv =>
+      Fml.or ([Fml.ge b.s (.add (numT iv.2) (periodShift b.s off p)),
+               Fml.le b.e (.add (numT iv.1) (periodShift b.s off p))] ++ masks))
+
 def CBody.resMeaningF : CBody → Option Fml
   | .unavailable busy ivs =>
       some (.and (ivs.flatMap (fun iv => busy.map (fun b => Fml.or [.ge b.s (numT iv.2), .le b.e (numT iv.1)]))))
@@ -160,6 +190,10 @@ def CBody.resMeaningF : CBody → Option Fml
   | .interrupted ws ivs =>
       if ivs.all (fun iv => decide (iv.1 < iv.2)) then
         some (.and (ws.flatMap (fun w => w.flatMap (fun bt => interruptedF bt.1 bt.2 ivs))))
+      else none
+  | .periodicallyInterrupted busy ivs period start offset end_ =>
+      if decide (0 < period) && ivs.all (fun iv => decide (0 ≤ iv.1) && decide (iv.1 < iv.2) && decide (iv.2 ≤ period)) then
+        some (.and (busy.flatMap (fun bt => periodicInterruptedF bt.1 bt.2 ivs period start offset end_)))
       else none
   | .sameWorkers s1 s2 =>
       some (.and ((s1.workers.filter (fun w => s2.workers.contains w)).map (fun w =>
@@ -190,6 +224,18 @@ def constCostTerms (it : Cost × List BusyRef) : List Term :=
   | .const k => it.2.map (fun b => Term.mul (numT k) (.sub b.e b.s))
   | _ => []
 
+def Cost.isPoly : Cost → Bool
+  | .poly _ => true
+  | _ => false
+
+/-- twice the cost of each busy interval of a resource with a linear cost function `a·t + b`:
+    `(cost(start) + cost(end)) · (end − start)` — the trapezoid, which `linear_trapezoid` shows to be the exact sum -/
+def linCostTerms (it : Cost × List BusyRef) : List Term :=
+  match it.1 with
+  | .linear a b => it.2.map (fun bz =>
+      Term.mul (.add (.add (.mul (numT a) bz.s) (numT b)) (.add (.mul (numT a) bz.e) (numT b))) (.sub bz.e bz.s))
+  | _ => []
+
 def IBody.defF (v : Term) : IBody → Option Fml
   | .expr t _ => some (.eq v t)
   | .utilization busy (some h) => some (.eq v (.div (.mul (numT 100) (sumOrZero (busy.map (fun b => Term.sub b.e b.s)))) (numT h)))
@@ -207,6 +253,10 @@ def IBody.defF (v : Term) : IBody → Option Fml
   | .resourceCost items =>
       -- constant costs only (polynomial / linear costs make the definition non linear)
       if items.all (fun it => it.1.isConst) then some (.eq v (sumOrZero (items.flatMap constCostTerms)))
+      else if items.all (fun it => !it.1.isPoly) then
+        -- constant and linear costs: constant part plus half the trapezoid sum
+        some (.eq v (.add (sumOrZero (items.flatMap constCostTerms))
+                          (.div (sumOrZero (items.flatMap linCostTerms)) (numT 2))))
       else none
   | _ => none
 
